@@ -93,6 +93,21 @@ Definition build_halton (N : nat) (bs : list (Q * Q)) : option (list (list Q)) :
   | None => None
   end.
 
+(* One row of that design in closed form: point number i, counted from 1 (the burn-in point 0 is
+   dropped), is the scaled row of the i-th van der Corput terms.  `build_halton_at` returns the
+   rows of the listed point numbers only (None when a number is outside 1..N); it is what the
+   correspondence evaluates for large N, where only selected points are compared.
+   Proofs/SamplersProofs.v (halton_selected_rows) proves it equal to picking those rows out of
+   `build_halton N bs`. *)
+Definition halton_row_at (bs : list (Q * Q)) (base : list nat) (i : nat) : list Q :=
+  scale_row bs (map (fun b => vdc_at b i) base).
+Definition point_in_range (N i : nat) : bool := (1 <=? i)%nat && (i <=? N)%nat.
+Definition build_halton_at (N : nat) (bs : list (Q * Q)) (idxs : list nat) : option (list (list Q)) :=
+  match halton_base (length bs) with
+  | Some base => if forallb (point_in_range N) idxs then Some (map (halton_row_at bs base) idxs) else None
+  | None => None
+  end.
+
 (* ---- operators.UniformGenerator: delta = (ub - lb) / (number - 1); levels lb + i * delta;
    itertools.product (the last parameter varies fastest) ------------------------------------ *)
 Definition levels (k : nat) (b : Q * Q) : list Q :=
